@@ -63,6 +63,29 @@ def conform_reducer(chk, items, name="reducer"):
     return ok, drift
 
 
+def collect_resumed(chk, progs, paths_q=6, paths_t=40, depth=8, ext_before=0):
+    """Serialise/resume points: each program is run along explored schedules (and their first halves), its context is
+    serialised through JSON at the end of the schedule and resumed on the same workflow object (run 2 of the trace), then
+    driven to the end with the program's external inputs.  progs: [(label, prog, ext_menu)] -> items."""
+    rng = random.Random(chk.seed + 3)
+    out = []
+    for (label, prog, ext) in progs:
+        paths = et.explore(prog, ext_menu=ext if ext_before else (), max_depth=depth, max_paths=chk.pick(paths_q, paths_t),
+                           rng=random.Random(rng.random()), timeout_advance=False, drain=False, max_ext=ext_before)
+        seen = set()
+        for (_tr, sched) in paths:
+            for cut in sorted({len(sched), max(1, len(sched) // 2)}):
+                key = repr(sched[:cut])
+                if key in seen:
+                    continue
+                seen.add(key)
+                tr = et.replay_then_resume(prog, sched[:cut], ext_menu=ext)
+                if any(r["e"] == "outcome" and r.get("run") == 1 for r in tr):
+                    continue               # the run had already ended at the snapshot: nothing to resume (run(ctx) starts afresh)
+                out.append((label + "+resume", prog, ext, tr, sched[:cut]))
+    return out
+
+
 def _at(sg, r):
     """Clock value (the adapter's clock, ms) at which the line was recorded, or -1 when the segment has no base yet."""
     return -1 if sg["base"] is None or "t" not in r else int(sg["base"] + r["t"])
@@ -131,6 +154,8 @@ def engine_lines(tr, free_uids=False):
         sg = segs[run]
         if sg["bad"] or not sg["log"] or sg["now0"] is None or (sg["resumed"] and not sg["init"]):
             continue
+        if sg["resumed"] and not sg["init"].get("running", True):
+            continue        # "resumed" from the context of a run that had ended: run(ctx) starts a new run, nothing is resumed
         for ln in sg["log"]:
             ln.setdefault("at", -1)
         res.append(dict({k: sg[k] for k in ("now0", "resumed", "init", "next0", "log")}, free_uids=bool(free_uids)))
